@@ -221,6 +221,108 @@ func runScratch(c *core.Ctx) []core.Obligation {
 			}
 		}
 	}
+	// fixed-size arrays: when the input closes the array early, the elements it did not provide are
+	// set to zero (encoding/json does; a pre-populated target must not keep its tail)
+	if fn := c.Lookup("json.(decoder).decodeArray"); fn != nil {
+		zeroes := func(f *ssa.Function) bool {
+			if f == nil || f.Blocks == nil {
+				return false
+			}
+			for _, ci := range callsIn(f) {
+				n := calleeName(ci.Common())
+				if n == "(reflect.Value).Set" || n == "(reflect.Value).SetZero" || strings.Contains(n, "memclr") || strings.Contains(n, "typedmemclr") {
+					return true
+				}
+			}
+			return false
+		}
+		n, bad := 0, ""
+		for _, h := range loopHeaders(fn) {
+			body := loopBlocks(h)
+			// only the loop that decodes elements (it contains the dynamic decode call)
+			decodes := false
+			for blk := range body {
+				for _, in := range blk.Instrs {
+					if call, ok := in.(*ssa.Call); ok && staticCallee(call.Common()) == nil && !call.Common().IsInvoke() {
+						if _, isB := call.Common().Value.(*ssa.Builtin); !isB {
+							decodes = true
+						}
+					}
+				}
+			}
+			if !decodes {
+				continue
+			}
+			for _, blk := range fn.Blocks {
+				if len(blk.Instrs) == 0 || body[blk] {
+					continue
+				}
+				r, ok := blk.Instrs[len(blk.Instrs)-1].(*ssa.Return)
+				if !ok || len(r.Results) != 2 || !isNilConst(r.Results[1]) {
+					continue
+				}
+				// left from inside the body (not through the header's exit edge)?
+				early := false
+				seenB := map[*ssa.BasicBlock]bool{}
+				var back func(x *ssa.BasicBlock)
+				back = func(x *ssa.BasicBlock) {
+					if seenB[x] {
+						return
+					}
+					seenB[x] = true
+					for _, p := range x.Preds {
+						if body[p] {
+							// the loop's own exit (the test of the induction variable, at the
+							// header or, for rotated range loops, at the bottom) is not early
+							normal := p == h
+							if k := len(p.Instrs); k > 0 {
+								if ifi, ok := p.Instrs[k-1].(*ssa.If); ok && isLoopCond(ifi.Cond) {
+									normal = true
+								}
+							}
+							if !normal {
+								early = true
+							}
+							continue
+						}
+						back(p)
+					}
+				}
+				back(blk)
+				if !early {
+					continue
+				}
+				n++
+				cleared := false
+				for x := blk; x != nil; x = x.Idom() {
+					for _, in := range x.Instrs {
+						if ci, ok := in.(ssa.CallInstruction); ok && zeroes(staticCallee(ci.Common())) && (x != blk || true) {
+							if x == blk || x.Dominates(blk) {
+								cleared = true
+							}
+						}
+					}
+					if x == h {
+						break
+					}
+				}
+				if !cleared {
+					bad = c.InstrPos(r)
+				}
+			}
+		}
+		key := "array-tail-zeroed"
+		switch {
+		case n == 0:
+			b.addP([]string{"C02"}, core.Undecided, key, c.FuncPos(fn), "no early success return found inside the element loop of decodeArray")
+		case bad != "":
+			b.addP([]string{"C02"}, core.Violation, key, bad, "decodeArray returns success from inside the element loop (the input closed the array early) without zeroing the remaining elements: decoding [9] into a pre-populated [3]int{1,2,3} leaves [9 2 3] where encoding/json gives [9 0 0]")
+		default:
+			b.addP([]string{"C02"}, core.Discharged, key, c.FuncPos(fn), fmt.Sprintf("%d early success return(s), each after the tail of the array is zeroed", n))
+		}
+	} else {
+		b.addP([]string{"C02"}, core.Undecided, "array-tail-zeroed", "-", "json.(decoder).decodeArray not found")
+	}
 	return b.out
 }
 
